@@ -1,5 +1,147 @@
-import VotelibProofs.Lemmas.STVRun
-import VotelibModel.PSC
+/-
+  C04 — transferable vote seats quota-sized solid coalitions; result shape; exact Gregory count.
+  Property theorems only (helper lemmas live in VotelibProofs/Lemmas).  Namespace VL.C04.
+
+  Reading.  The outcome is `selectorEvaluate E cfg votes n ds` (= `TransferableVoteSelector.evaluate`; the
+  "independently computed weighted-inclusive-Gregory count" of the statement is this model with `E = gregory`).
+  The quota is the one actually used (`computeQuota`).  A ballot is solid for a candidate set `S` when some prefix
+  of its ranks holds exactly `S` (`solidFor`); `support votes S` is the number of such votes.  A refusal
+  (`Err.notImplemented`, unresolved tie) is an allowed outcome, so the theorems speak about `.ok` outcomes.
+-/
+import VotelibProofs.Lemmas.STVShape
+import VotelibModel.Gen.Quota
 namespace VL.C04
 open VL VL.STV
+
+/-! ## the verified PSC checker -/
+
+/-- **The checker decides proportionality for solid coalitions.**  `pscCheck`, which enumerates only the
+    prefix sets of the ballots, is `true` exactly when the statement holds for *every* non-empty duplicate-free
+    candidate list `S` and every `k` with `k` quotas of solid support: at least `min k |S|` members of `S` elected. -/
+theorem pscCheck_sound_complete {votes : Profile} {q : Rat} (hq : 0 < q) (hwf : WFVotes votes) (elected : List Cand) :
+    pscCheck votes q elected = true ↔
+      ∀ S : List Cand, S.Nodup → S ≠ [] → ∀ k : Nat, (k : Rat) * q ≤ support votes S →
+        min k S.length ≤ electedIn elected S :=
+  pscCheck_iff hq hwf elected
+
+/-- a coalition nobody supports solidly is never constrained (why prefix sets suffice) -/
+theorem unsupported_coalition_trivial {votes : Profile} {q : Rat} (hq : 0 < q) {S : List Cand}
+    (h : ∀ bw ∈ votes, solidFor bw.1 S = false) {k : Nat} (hk : (k : Rat) * q ≤ support votes S) : k = 0 := by
+  rw [support_zero_of_none h] at hk
+  by_contra hne
+  have : 0 < (k : Rat) := by exact_mod_cast Nat.pos_of_ne_zero hne
+  have := mul_pos this hq
+  linarith
+
+/-! ## a majority first choice wins a single seat -/
+
+/-- the quota in force for one seat is at least half of the votes cast (true of Droop, Hare and
+    Hagenbach-Bischoff, and vacuously of "no quota") -/
+def QuotaAtLeastHalf (cfg : Cfg) (votes : Profile) : Prop :=
+  ∀ q, computeQuota cfg (totalVotes votes) 1 = some q → totalVotes votes / 2 ≤ q
+
+theorem droop_at_least_half {cfg : Cfg} (hc : cfg.quota = some Gen.Quota.droop) {votes : Profile} (hwf : WFVotes votes) :
+    QuotaAtLeastHalf cfg votes := by
+  intro q hq
+  unfold computeQuota at hq
+  rw [hc] at hq
+  simp only at hq
+  split at hq
+  · injection hq with hq
+    subst hq
+    have hv := totalVotes_nonneg hwf
+    have h2 : (0 : Rat) ≤ totalVotes votes / 2 := by linarith
+    unfold Gen.Quota.droop Py.pyInt
+    have hcast : ((((1 + 1 : Nat) : Nat) : Rat)) = 2 := by norm_num
+    rw [hcast, if_pos h2]
+    have := Rat.lt_floor_add_one (totalVotes votes / 2)
+    push_cast at this ⊢
+    linarith
+  · cases hq
+
+theorem hare_at_least_half {cfg : Cfg} (hc : cfg.quota = some Gen.Quota.hare) {votes : Profile} (hwf : WFVotes votes) :
+    QuotaAtLeastHalf cfg votes := by
+  intro q hq
+  unfold computeQuota at hq
+  rw [hc] at hq
+  simp only at hq
+  split at hq
+  · injection hq with hq
+    subst hq
+    have hv := totalVotes_nonneg hwf
+    unfold Gen.Quota.hare
+    simp only [Nat.cast_one, div_one]
+    linarith
+  · cases hq
+
+/-- **Majority first choice.**  In a single-seat count (any transferer meeting the specification, Gregory or
+    Hare; any negative `eliminate_step`; a quota of at least half the votes, e.g. Droop or Hare), a candidate
+    who is the sole first choice on more than half of all votes cast is the winner whenever a winner is returned. -/
+theorem majority_first_choice_wins {E : Engine} (hE : EngineOK E) {cfg : Cfg} {votes : Profile} (hwf : WFVotes votes)
+    {c : Cand} (hmaj : totalVotes votes / 2 < firstPrefTotal votes c)
+    {s : Int} (hstep : cfg.step = some s) (hneg : s < 0) (hq : QuotaAtLeastHalf cfg votes)
+    {ds : List Draw} {l : List Cand} (h : selectorEvaluate E cfg votes 1 ds = .ok l) : l = [c] := by
+  obtain ⟨st, hr, hsum, rfl⟩ := selectorEvaluate_ok h
+  have hm := maj_reach hE hwf hmaj hstep hneg hq hr
+  rcases hm with ⟨hs0, _⟩ | hs1
+  · rw [hs0] at hsum; simp [sumSeats] at hsum
+  · rw [hs1]; simp [distributionToSelection, sortDesc, insertDesc]
+
+/-! ## result shape -/
+
+/-- **Result shape.**  Whenever `TransferableVoteSelector.evaluate` returns a list (any transferer meeting the
+    specification, any configuration, any profile, any seat number), it holds exactly the requested number of
+    candidates, all distinct, all of them candidates of the profile. -/
+theorem result_shape {E : Engine} (hE : EngineOK E) {cfg : Cfg} {votes : Profile} {n : Nat} {ds : List Draw}
+    {l : List Cand} (h : selectorEvaluate E cfg votes n ds = .ok l) :
+    l.length = n ∧ l.Nodup ∧ ∀ c ∈ l, c ∈ allRanked votes := by
+  obtain ⟨st, hr, hsum, rfl⟩ := selectorEvaluate_ok h
+  have hj := shape_reach hE hr
+  have hperm := distributionToSelection_perm st.seats
+  refine ⟨?_, hperm.nodup_iff.mpr hj.nd, ?_⟩
+  · rw [hperm.length_eq, List.length_map, ← sumSeats_of_ones hj.ones]; exact hsum
+  · intro c hc
+    obtain ⟨p, hp, rfl⟩ := List.mem_map.mp (hperm.mem_iff.mp hc)
+    exact hj.sub p hp
+
+/-! ## what is known to fail: coalitions whose supporters share a rank inside the coalition -/
+
+section Witness
+/-- ballots  {a,b} > c ×10,  c ×6,  a ×1  (a=0, b=1, c=2): ten of seventeen voters rank {a,b} above c -/
+def wVotes : Profile := [([.shared [0, 1], .one 2], 10), ([.one 2], 6), ([.one 0], 1)]
+def wCfg : Cfg := { quota := some Gen.Quota.droop, acceptEqual := true, mandatory := false, step := some (-1) }
+
+/-- **Witness (known finding).**  With a shared rank inside the coalition the count seats nobody of a
+    majority coalition: the model — like the implementation — elects `c`, and the verified checker rejects it.
+    `ranked_next` passes the papers of the eliminated `b` over `a`, who shares the rank, to `c`. -/
+theorem psc_shared_rank_witness :
+    selectorEvaluate gregory wCfg wVotes 1 [] = .ok [2] ∧ computeQuota wCfg (totalVotes wVotes) 1 = some 9 ∧
+    support wVotes [0, 1] = 10 ∧ pscCheck wVotes 9 [2] = false := by decide +kernel
+
+theorem psc_shared_rank_witness_spec :
+    ¬ ∀ S : List Cand, S.Nodup → S ≠ [] → ∀ k : Nat, (k : Rat) * 9 ≤ support wVotes S →
+      min k S.length ≤ electedIn [2] S := by
+  intro h
+  have hwf : WFVotes wVotes := by
+    intro bw hbw; simp [wVotes] at hbw; rcases hbw with h | h | h <;> rw [h] <;> decide
+  have := (pscCheck_sound_complete (by norm_num : (0 : Rat) < 9) hwf [2]).mpr h
+  rw [psc_shared_rank_witness.2.2.2] at this
+  cases this
+end Witness
+
+/-! ## non-vacuity -/
+
+section Example
+/-- a > b ×6, b > c ×3, c ×2: a is first on 6 of 11 -/
+def mVotes : Profile := [([.one 0, .one 1], 6), ([.one 1, .one 2], 3), ([.one 2], 2)]
+example : totalVotes mVotes / 2 < firstPrefTotal mVotes 0 := by decide +kernel
+example : selectorEvaluate gregory wCfg mVotes 1 [] = .ok [0] := by decide +kernel
+/-- fractional weights: the majority candidate is below the Droop quota at the first count and wins later -/
+def fVotes : Profile := [([.one 0], (8 : Rat) / 5), ([.one 1, .one 0], (4 : Rat) / 5), ([.one 2, .one 1], (3 : Rat) / 5)]
+example : totalVotes fVotes / 2 < firstPrefTotal fVotes 0 ∧ firstPrefTotal fVotes 0 < 2 ∧
+    computeQuota wCfg (totalVotes fVotes) 1 = some 2 ∧ selectorEvaluate gregory wCfg fVotes 1 [] = .ok [0] := by
+  decide +kernel
+example : pscCheck mVotes 6 [0] = true ∧ pscCheck mVotes 6 [1] = false := by decide +kernel
+end Example
+
 end VL.C04
